@@ -219,7 +219,14 @@ def check(pid, tier, replay_only=None):
                     if x['status'] == 'success':
                         continue
                     if x['status'] in ('undecided', 'missing'):
-                        if not build_failed:
+                        if build_failed:
+                            continue
+                        if x.get('resource_limit') and not (h[2] or '').startswith('complete'):
+                            # a bounded stand-in that did not finish within its budget explored nothing and found nothing:
+                            # recorded in the evidence, never an alarm and never counted
+                            notes.append('kani %s (bounded stand-in) did not finish within its time/memory budget: not counted' % full)
+                            x['status'] = 'budget_exhausted'
+                        else:
                             undecided.append('kani %s: %s' % (full, x.get('undecided_reason', x['status'])))
                         continue
                     # failed: which property do the failed checks belong to?
